@@ -99,7 +99,7 @@ theorem hunk_body_line_claimed (cfg : Cfg) (m : M) (l : L)
   have e3 := handleDiffHeaderDiff_not_mine cfg m l (body_not_startsWith hb (d := 'd') rfl rfl)
   have e4 := handleFileOperation_not_mine cfg m l (by simp [hlt])
   have e5 := handleMinusLine_not_mine cfg m l (by simp [minusLineTest, hlt])
-  have e6 := handlePlusLine_not_mine cfg m l (by simp [plusLineTest, hlt])
+  have e6 := handlePlusLine_not_mine cfg m l (by simp [plusLineTest, hnd])
   have e7 := handleHunkHeader_not_mine cfg m l (body_not_startsWith hb (d := '@') rfl rfl)
   have e8 := handleModeLine_not_mine cfg m l (body_not_startsWith hb (d := 'o') rfl rfl)
     (body_not_startsWith hb (d := 'n') rfl rfl)
@@ -150,7 +150,7 @@ theorem passthrough_exact (cfg : Cfg) (m : M) (l : L)
   have e3 := handleDiffHeaderDiff_not_mine cfg m l no.diff
   have e4 := handleFileOperation_not_mine cfg m l (by simp [hlt])
   have e5 := handleMinusLine_not_mine cfg m l (by simp [minusLineTest, hlt])
-  have e6 := handlePlusLine_not_mine cfg m l (by simp [plusLineTest, hlt])
+  have e6 := handlePlusLine_not_mine cfg m l (by simp [plusLineTest, hnd])
   have e7 := handleHunkHeader_not_mine cfg m l no.hunkHeader
   have e8 := handleModeLine_not_mine cfg m l no.oldMode no.newMode
   have e9 := handleMisc_not_mine cfg m l no.onlyIn no.binary
